@@ -40,6 +40,8 @@ STATS = Stats()
 
 def eq_goal(a, b, tol=None):
     """z3 Bool: a == b for two scalars (z3 terms or LogV)."""
+    if isinstance(a, sj.XV) or isinstance(b, sj.XV):
+        return sj.xv_same(a, b)
     if isinstance(a, sj.LogV) and isinstance(b, sj.LogV):
         a, b = a.P, b.P
     else:
@@ -66,7 +68,7 @@ def eq_arrays(a, b, tol=None):
     gs = []
     for idx in np.ndindex(a.shape):
         x, y = a[idx], b[idx]
-        if not isinstance(x, sj.LogV) and not isinstance(y, sj.LogV) and x.eq(y):
+        if not isinstance(x, (sj.LogV, sj.XV)) and not isinstance(y, (sj.LogV, sj.XV)) and x.eq(y):
             continue
         gs.append(eq_goal(x, y, tol))
     return z3.And(*gs) if gs else z3.BoolVal(True)
